@@ -129,7 +129,9 @@ Print Assumptions C09_judge_sound.
 Theorem C09_judge_kf_narrow : forall text o id,
   judge_parse text o = v_kf id ->
   (id = "exp-nesting"%string /\ o = RHang /\ nest_threshold <= nest_depth text) \/
-  (id = "stack-overflow-prefix-run"%string /\ o = RAbort /\ run_threshold <= max_prefix_run text).
+  (id = "stack-overflow-prefix-run"%string /\ o = RAbort /\ run_threshold <= max_prefix_run text) \/
+  (id = "rational-suffix-dropped"%string /\ kf_rat_suffix text = true /\
+   exists p, o = RParse p /\ obs_okb text p = false /\ obs_okb text (drop_uncovered p) = true).
 Proof. exact judge_kf_narrow. Qed.
 Print Assumptions C09_judge_kf_narrow.
 
